@@ -102,7 +102,15 @@ def run(chk: Check):
         script = [(rng.randint(1, 3), False) for _ in range(ns)]
         if rng.random() < 0.4:
             i = rng.randrange(ns); script[i] = (rng.randint(0, 2), True)
-        losses = rng.choice([[10.0 - k for k in range(9)], [5.0, 5.0, 4.0, 6.0, 4.0, 3.5, 7.0, 1.0, 1.0], [3.0] * 9])
+        inf = float("inf")
+        losses = rng.choice([[10.0 - k for k in range(9)], [5.0, 5.0, 4.0, 6.0, 4.0, 3.5, 7.0, 1.0, 1.0], [3.0] * 9,
+                             # a perfect fit (best loss exactly 0.0), ties at it, negative losses, a diverging first batch
+                             [4.0, 0.0, 1.0, 2.0, 0.0, 0.0, 3.0, 0.0, 1.0], [0.0] * 9, [2.0, -1.0, -1.0, -3.5, 0.0, -3.5, 1.0, -4.0, 2.0],
+                             [inf, inf, 2.0, inf, 1.0, 1.0, 0.5, inf, 0.25]])
+        if len(configs) < 2:      # always: one perfect-fit run and one diverging first batch, with batches after them
+            losses = [[4.0, 0.0, 1.0, 2.0, 0.0, 0.0, 3.0, 0.0, 1.0], [inf, inf, 2.0, inf, 1.0, 1.0, 0.5, inf, 0.25]][len(configs)]
+            script = [(3, False), (2, False)]
+        chk.count("losses:" + ("zero" if 0.0 in losses else "inf" if inf in losses else "negative" if min(losses) < 0 else "positive"))
         configs.append({"script": script, "losses": losses, "agent": rng.choice(["eps", "eps", "scripted"]), "agent_seed": rng.randrange(100),
                         "actions": [rng.randrange(2) for _ in range(5)]})
     reqs, metas = [], []
